@@ -262,3 +262,51 @@ def cp_apr_tolerance_dense_vs_sparse(E, alg, data, R, iters, inner):
     Ma, oa = _apr(E, Xd, K0.copy(), alg, maxiters=iters, maxinneriters=inner, printitn=0, stoptol=tol)
     Mb, ob_ = _apr(E, Xs, K0.copy(), alg, maxiters=iters, maxinneriters=inner, printitn=0, stoptol=tol)
     _same_apr(E, Ma, oa, Mb, ob_, "dense vs sparse")
+
+
+def _drawkey(v):
+    from symx import core
+    return (v.n.uid, None if v.d is None else v.d.uid) if core.is_sym(v) else float(v)
+
+
+@ob("C18", params=[dict(alg="cp_als", vary="printitn"), dict(alg="cp_als", vary="kind"), dict(alg="tucker_als", vary="printitn")],
+    max_paths=6000, wall_s=300, validate=False, env_stub=True, canon=False,
+    bounds="random starts: np.random is a stub whose k-th draw is the symbol rng_k (= the global stream after a fixed seed); two runs on the same stream that differ only in "
+           "printing or in the dense / sparse holder; CP-ALS one sweep (opaque solves), Tucker-ALS one sweep (nvecs stub); 2x3 data, rank 1 (CP-APR with a random start: five symbolic draws, no path within 14 min: not registered)")
+def random_start_same_stream(E, alg, vary):
+    """same seed => same stream => the two runs draw the same values in the same order, never reseed, and return the same starting guess and model"""
+    shape = (2, 3)
+    vals = _vals(shape) if alg != "cp_apr" else np.array([[3.0, 0.0, 1.0], [1.0, 2.0, 0.0]])
+    Xd = ttb.tensor(E.const(vals))
+    variants = [(Xd, 0), (Xd, 1)] if vary == "printitn" else [(Xd, 0), (Xd.to_sptensor(), 0)]
+    outs = []
+    for X, pr in variants:
+        if alg == "cp_als":
+            st, rng, nv, sv = _run(E, X, 1, None, None, "random", pr, True, cut=True)
+            E.true("locals" in st, "the sweep completed")
+            if "locals" not in st:
+                return
+            outs.append((rng, st["locals"]["M"], st["locals"]["init"] if "init" in st["locals"] else None))
+        elif alg == "tucker_als":
+            with H.rng(E) as rng, H.nvecs_stub(E):
+                with contextlib.redirect_stdout(io.StringIO()):
+                    T, Ui, out = ttb.tucker_als(X, [1, 1], maxiters=1, init="random", printitn=pr)
+            outs.append((rng, T, Ui))
+        else:
+            with H.rng(E) as rng:
+                with contextlib.redirect_stdout(io.StringIO()):
+                    M, Mi, out = ttb.cp_apr(X, 1, algorithm="mu", init="random", maxiters=1, maxinneriters=1, printitn=pr)
+            outs.append((rng, M, Mi))
+    (ra, Ma, Ia), (rb, Mb, Ib) = outs
+    E.true(len(ra.draws) > 0 and len(ra.draws) == len(rb.draws), "both runs draw the same number of values from the global stream", f"{len(ra.draws)} vs {len(rb.draws)}")
+    E.true([_drawkey(v) for v in ra.draws] == [_drawkey(v) for v in rb.draws], "the k-th draw of both runs is the k-th value of the stream")
+    E.true(ra.seeds == [] and rb.seeds == [], "the algorithm does not reseed the global stream")
+    if alg == "tucker_als":
+        E.eq(O.den(Mb.core), O.den(Ma.core), "same core")
+        for n in range(2):
+            E.eq(Mb.factor_matrices[n], O.cells(np.asarray(Ma.factor_matrices[n])), "same factors")
+            E.eq(Ib[n], O.cells(np.asarray(Ia[n])), "same starting guess")
+    else:
+        _same_model(E, Ma, Mb, "same stream")
+        if Ia is not None and Ib is not None and hasattr(Ia, "factor_matrices"):
+            _same_model(E, Ia, Ib, "starting guess")
